@@ -34,7 +34,7 @@ def gen_rows(rng, shape=None):
         gc = rng.choice(GCS)
         ccc = rng.choice([0, 0, 9, 230])
         bidi = rng.choice(BIDIS)
-        width = rng.choice([None, None, None, 0x41, 0x20]) if not is_range else None
+        width = rng.choice([None, None, None, 0x41, 0x20]) if not is_range else rng.choice([None, None, 0x25A1])
         rows.append((cp, hi, gc, ccc, bidi, width, is_range))
         cp = hi + rng.choice([1, 1, 1, 2, 3, 0x100]) if top > 0x400 or rng.random() < 0.9 else hi + 1
     return rows
@@ -238,6 +238,8 @@ def correspondence(ctx):
                [S(1, 'Mn', ccc=9), S(2, 'Mn', ccc=9), S(4, 'Mn', ccc=9), R(0x10, 0x12, 'Mn', ccc=9)],
                # ranges overlapping the surrogate block (ucd-parse code points are not scalar values), singles inside it
                [(0xD7F0, 0xE00F, 'Lu', 0, 'L', None, True)], [S(0xD7FF, 'Ll'), (0xD800, 0xDB7F, 'Cc', 0, 'L', None, True), (0xDB80, 0xDBFF, 'Cc', 0, 'L', None, True), (0xDC00, 0xDFFF, 'Mn', 9, 'NSM', None, True), (0xE000, 0xF8FF, 'Lu', 0, 'L', None, True)],
+               [(0x2FE0, 0x2FEF, 'So', 0, 'ON', 0x25A1, True), S(0x3000, 'Zs', 'WS', w=0x20), S(0xFF01, 'Po', 'ON', w=0x21)],
+               [S(0x3000, 'Zs', 'WS', w=0x20), (0x3400, 0x3410, 'Lo', 0, 'L', 0x4E00, True), (0x3420, 0x3430, 'Lo', 0, 'L', 0x4E01, True), S(0xFF01, 'Po', 'ON', w=0x21)],
                [S(0xD800, 'Zs'), S(0xDFFF, 'Zs'), S(0xE000, 'Zs')], [(0xDFF0, 0xE010, 'Zs', 0, 'R', None, True), S(0xE011, 'Zs', 'R')]]
     for _ in range(250 if ctx.tier == 'quick' else 4000):
         inputs.append(gen_rows(rng))
